@@ -495,6 +495,25 @@ def check(repo: Repo, run: Run) -> None:
         if not neutral and isinstance(dflt, (ast.Dict, ast.List, ast.Tuple, ast.Set)) and not (
                 dflt.keys if isinstance(dflt, ast.Dict) else dflt.elts):
             neutral = True
+        factory = None
+        if isinstance(dflt, ast.Call) and not dflt.args and not dflt.keywords and isinstance(dflt.func, ast.Name):
+            factory = dflt.func.id if dflt.func.id in ("dict", "list", "set", "tuple", "str", "bytes", "int") else _partial_factory(ci.module, dflt.func.id)
+        if not neutral and factory in ("dict", "list", "set", "tuple", "str", "bytes", "int"):
+            neutral = True              # empty_dict = partial(field, default_factory=dict); x: Dict = empty_dict()
+        if neutral and factory is not None:
+            ann = next((st.annotation for st in ci.node.body if isinstance(st, ast.AnnAssign) and isinstance(st.target, ast.Name)
+                        and st.target.id == fname), None)
+            ann_name = None
+            if ann is not None:
+                a0 = ann.value if isinstance(ann, ast.Subscript) else ann
+                ann_name = a0.id if isinstance(a0, ast.Name) else a0.attr if isinstance(a0, ast.Attribute) else None
+            kind = {"List": "list", "list": "list", "Dict": "dict", "dict": "dict", "Set": "set", "set": "set", "Tuple": "tuple",
+                    "tuple": "tuple", "str": "str", "bytes": "bytes", "int": "int"}.get(ann_name)
+            if kind is not None and kind != factory:
+                run.ob("R8", MOD, "OsLogEvent", f"default of optional field {fname} is the empty value of its own kind", False,
+                       f"field {fname} is declared {ann_name} but defaults to {factory}(): a record without the key decodes to another "
+                       f"kind of empty value than a record that carries an empty one (`{factory}()` is not `{kind}()`)",
+                       line=dflt.lineno, witness=f"a record without the raw key of {fname}")
         run.ob("R8", MOD, "OsLogEvent", f"default of optional field {fname} is an empty value", neutral,
                "" if neutral else
                f"field {fname} defaults to {ast.unparse(dflt)[:60]}: a record that lacks the key decodes exactly like a record "
@@ -539,6 +558,26 @@ def check(repo: Repo, run: Run) -> None:
         parsed = T("call", (T("attr", (T("global", (f"{MOD}.firehose_tracepoint_id",)), "parse")),
                             (T("call", (T("global", ("construct.Int64ul.build",)), (tid_param,), ())),), ()))
         obj = r2.return_term()
+        # R13 the registries are looked up only for namespaces they list: the word's namespace byte takes every defined value,
+        # and two of them (loss, unknown) have no type table
+        from .. import guards as _g
+        n_reg_reads = 0
+        for p_ in r2.pops:
+            if p_.kind == "sub" and p_.base.op == "global" and p_.base.a[0].startswith("pykdebugparser.") \
+                    and p_.base.a[0].rsplit(".", 1)[1] in ("tracepoint_types", "tracepoint_flags"):
+                n_reg_reads += 1
+                why = _g.member_guarded(p_, r2) or ("enclosing try/except KeyError" if _g.in_try(p_, {"KeyError", "LookupError", "Exception", "BaseException"}) else None)
+                if why is None:
+                    a_ = _g.assumptions(p_.pc)
+                    if render.assume_lookup(a_, T("cmp", ("in", p_.key, p_.base))) is True:
+                        why = "membership tested on the path"
+                run.ob("R13", MOD, "OsLogEvent.parse_trace_identifier", f"{p_.base.a[0].rsplit('.', 1)[1]}[namespace] only for listed namespaces (line {p_.lineno})",
+                       why is not None, "" if why is not None else
+                       f"parse_trace_identifier reads {p_.base.a[0].rsplit('.', 1)[1]}[{sym.pretty(p_.key)[:40]}] without having established that "
+                       f"the namespace is a key of that table (and catches no KeyError): an identifier of a namespace without a table - "
+                       f"loss, unknown - raises, and no further log record is yielded", line=p_.lineno,
+                       witness="a log record whose trace identifier has namespace byte 7 (loss)")
+        run.floor("R13", "registry lookups in parse_trace_identifier", n_reg_reads, 1)
         okp = obj.op == "new" and obj.a[0].endswith("TraceIdentifier") and sym.contains(obj, parsed)
         run.ob("R4", MOD, "OsLogEvent.parse_trace_identifier", "parses the little-endian 64-bit encoding", okp,
                "parse_trace_identifier no longer parses firehose_tracepoint_id from Int64ul.build(word)",
@@ -615,6 +654,25 @@ def check(repo: Repo, run: Run) -> None:
                    facts={"kind": ec.enum_kind, "values": sorted(vals)}, line=v.lineno,
                    witness=f"trace identifier with namespace {ast.unparse(k).split('.')[-1]} and flags byte 0")
     run.floor("R5", "registry entries", n_reg, 6)
+
+
+def _partial_factory(mod, name: str, depth: int = 0):
+    """`name = partial(field, default_factory=F)` (or a partial of such a name, the later keyword winning): 'F'; else None."""
+    node = mod.constants.get(name)
+    if depth > 4 or not (isinstance(node, ast.Call) and isinstance(node.func, (ast.Name, ast.Attribute)) and node.args):
+        return None
+    fn_ = node.func.id if isinstance(node.func, ast.Name) else node.func.attr
+    if fn_ != "partial":
+        return None
+    base = node.args[0]
+    base_name = base.id if isinstance(base, ast.Name) else base.attr if isinstance(base, ast.Attribute) else None
+    for k in node.keywords:
+        if k.arg == "default_factory" and isinstance(k.value, ast.Name):
+            if base_name == "field" or _partial_factory(mod, base_name, depth + 1) is not None:
+                return k.value.id
+    if base_name and base_name != "field" and not node.keywords:
+        return _partial_factory(mod, base_name, depth + 1)
+    return None
 
 
 def _drop_selectors(t: T) -> T:
